@@ -18,7 +18,8 @@ prop("C09",
      factgen=["ipam"],
      drivers=["ipam"],
      trusted=["tools/factgen/cmd/ipam: lock-scope extraction is syntactic (Lock + deferred Unlock before the first access)",
-              "harness/ipam: client-go fake CRD clientset as API server; watch events delivered by the harness"],
+              "harness/ipam: client-go fake CRD clientset as API server; crdIpam gets a LAGGING informer (lister = store as of the last "
+              "explicit informer sync, handlers delivered by the harness), as the daemon passes the real one"],
      assumptions=["the API server refuses to create an object whose name exists (AlreadyExists)",
                   "configurations passed fipCheck; pools pairwise disjoint as address sets",
                   "re-keying an existing record (AllocateInSubnetWithKey, ReserveIP) is not an allocation move"],
